@@ -8,8 +8,8 @@ CONSTANTS TimeBound,     \* the clock runs 0..TimeBound
 W(s, e) == [s |-> s, e |-> e]
 
 \* two abstract timers: "A" has a point window and two intervals, "B" one early point and a late interval
-WinTable == [A |-> {W(2, 3), W(5, 5), W(8, 9)},
-             B |-> {W(1, 1), W(7, 9)},
+WinTable == [A |-> {W(1, 2), W(4, 4), W(6, 7)},
+             B |-> {W(3, 3), W(7, 9)},
              C |-> {}]                       \* a timer whose windows are all beyond the horizon
 MCScheds == {"A", "B", "C"}
 MCWinOf(s, lo, hi) == {w \in WinTable[s] : w.e >= lo /\ w.s <= hi}
@@ -23,14 +23,15 @@ Holds  == {-1} \cup 1..(TimeBound + 2)      \* incl. "forever" = beyond the hori
 
 MCInit == \E s \in MCScheds : Init(s)
 
-DoEnsureInFlight        == EnsureInFlight
-DoEnsureHeld            == \E d1 \in Delays : EnsureHeld(d1)
-DoEnsureWait            == \E d1, d2 \in Delays : EnsureWait(d1, d2)
-DoEnsureMeteredSkip     == \E d1, d2 \in Delays : EnsureMeteredSkip(d1, d2)
-DoEnsureTooSoon         == \E d1, d2 \in Delays : EnsureTooSoon(d1, d2)
-DoEnsureLaunchOK        == \E d1, d2 \in Delays, chg \in BOOLEAN : EnsureLaunch(d1, d2, "ok", chg, 0)
-DoEnsureLaunchNetErr    == \E d1, d2 \in Delays : EnsureLaunch(d1, d2, "neterr", FALSE, 0)
-DoEnsureLaunchHeld      == \E d1, d2 \in Delays, h \in Holds : EnsureLaunch(d1, d2, "held", FALSE, h)
+\* one Ensure pass per tick (the ensure loop is at least as fine as the clock)
+DoEnsureInFlight        == ~ensured /\ EnsureInFlight
+DoEnsureHeld            == ~ensured /\ \E d1 \in Delays : EnsureHeld(d1)
+DoEnsureWait            == ~ensured /\ \E d1, d2 \in Delays : EnsureWait(d1, d2)
+DoEnsureMeteredSkip     == ~ensured /\ \E d1, d2 \in Delays : EnsureMeteredSkip(d1, d2)
+DoEnsureTooSoon         == ~ensured /\ \E d1, d2 \in Delays : EnsureTooSoon(d1, d2)
+DoEnsureLaunchOK        == ~ensured /\ \E d1, d2 \in Delays, chg \in BOOLEAN : EnsureLaunch(d1, d2, "ok", chg, 0)
+DoEnsureLaunchNetErr    == ~ensured /\ \E d1, d2 \in Delays : EnsureLaunch(d1, d2, "neterr", FALSE, 0)
+DoEnsureLaunchHeld      == ~ensured /\ \E d1, d2 \in Delays, h \in Holds : EnsureLaunch(d1, d2, "held", FALSE, h)
 DoTick                  == now < TimeBound /\ Tick(1)
 \* the environment moves between the tick and the Ensure pass of that tick
 DoChangeDone            == ~ensured /\ ChangeDone
@@ -40,13 +41,9 @@ DoScheduleChanged       == ~ensured /\ \E s \in MCScheds : ScheduleChanged(s)
 DoRestart               == ~ensured /\ nextRefresh # -1 /\ Restart
 DoSetLastRefresh        == ~ensured /\ now # lastRefresh /\ SetLastRefresh(now)    \* e.g. a manual refresh of everything
 
-\* one Ensure pass per tick (the ensure loop is at least as fine as the clock)
-EnsureOnce(A) == ~ensured /\ A
-
 MCNext ==
-    \/ EnsureOnce(DoEnsureInFlight) \/ EnsureOnce(DoEnsureHeld) \/ EnsureOnce(DoEnsureWait)
-    \/ EnsureOnce(DoEnsureMeteredSkip) \/ EnsureOnce(DoEnsureTooSoon)
-    \/ EnsureOnce(DoEnsureLaunchOK) \/ EnsureOnce(DoEnsureLaunchNetErr) \/ EnsureOnce(DoEnsureLaunchHeld)
+    \/ DoEnsureInFlight \/ DoEnsureHeld \/ DoEnsureWait \/ DoEnsureMeteredSkip \/ DoEnsureTooSoon
+    \/ DoEnsureLaunchOK \/ DoEnsureLaunchNetErr \/ DoEnsureLaunchHeld
     \/ DoTick \/ DoChangeDone \/ DoExternalInFlight \/ DoSetHold \/ DoScheduleChanged \/ DoRestart
     \/ DoSetLastRefresh
 
